@@ -37,7 +37,7 @@ def _run_job(job):
 
     models_factory = getattr(mod, "make_models", Models)
     ex = IN.Explorer(P, models_factory, loop_bound=job.get("loop_bound", 16), max_paths=job.get("max_paths", 200000),
-                     budget_s=job.get("budget_s", 300))
+                     budget_s=job.get("budget_s", 900))
     t0 = time.time()
     try:
         viol, outcomes = ex.explore(scen, on_path_end=getattr(mod, "on_path_end", None))
